@@ -34,6 +34,9 @@ type Case struct {
 	CLib     uint64 `json:"clib,omitempty"`
 	Head     uint64 `json:"head,omitempty"`
 	Resolver int    `json:"resolver,omitempty"` // 0 no junction, 1 junction = block, 2 junction below (block-2), 3 error
+	// cursor cases: the start block the request still carries next to its cursor (clients resend their original one):
+	// 0, an absolute block below the cursor, or a head-relative negative number (head = 1000)
+	RawStart int64 `json:"raw_start,omitempty"`
 }
 
 func buildModules(cs Case) *pbsubstreams.Modules {
@@ -95,7 +98,7 @@ func run(cs Case) (o outcome) {
 		steps := []bstream.StepType{bstream.StepNew, bstream.StepUndo, bstream.StepIrreversible, bstream.StepNewIrreversible}
 		cur := &bstream.Cursor{Step: steps[cs.Step], Block: ref(cs.Block, "b"), LIB: ref(cs.CLib, "l"), HeadBlock: ref(cs.Head, "h")}
 		req.StartCursor = cur.ToOpaque()
-		req.StartBlockNum = 0
+		req.StartBlockNum = cs.RawStart
 	}
 	details, undo, err := pipeline.BuildRequestDetails(context.Background(), req, getLib, resolver, getHead, cs.Seg)
 	if err != nil {
@@ -318,7 +321,7 @@ func evalPlan(cs Case) (*core.Fail, bool) {
 func evalCursor(cs Case) (*core.Fail, bool) {
 	o := run(cs)
 	steps := []string{"new", "undo", "irreversible", "new+irreversible"}
-	desc := fmt.Sprintf("cursor step=%s block=%d lib=%d head=%d stop=%d resolver=%d", steps[cs.Step], cs.Block, cs.CLib, cs.Head, cs.Stop, cs.Resolver)
+	desc := fmt.Sprintf("cursor step=%s block=%d lib=%d head=%d stop=%d resolver=%d request start field=%d", steps[cs.Step], cs.Block, cs.CLib, cs.Head, cs.Stop, cs.Resolver, cs.RawStart)
 	if o.errAt != "" && o.errAt != "BuildRequestDetails" {
 		return nil, false // plan-level outcome: judged by the plan cases
 	}
@@ -473,8 +476,10 @@ func Run(ctx *core.Ctx) int {
 					for _, stop := range []uint64{0, blk - 1, blk + 10} {
 						for res := 0; res < 4; res++ {
 							for _, prod := range []bool{false, true} {
-								if !emit(Case{Kind: "cursor", Prod: prod, Seg: 10, Stores: []uint64{5}, MapInit: 0, Stop: stop, Lib: int64(blk + 100), Step: step, Block: blk, CLib: clib, Head: blk + 3, Resolver: res}) {
-									return
+								for _, raw := range []int64{0, 7, -980} {
+									if !emit(Case{Kind: "cursor", Prod: prod, Seg: 10, Stores: []uint64{5}, MapInit: 0, Stop: stop, Lib: int64(blk + 100), Step: step, Block: blk, CLib: clib, Head: blk + 3, Resolver: res, RawStart: raw}) {
+										return
+									}
 								}
 							}
 						}
